@@ -94,9 +94,9 @@ type c22ref struct {
 	Created   int // assets created so far in this history (including a pre-committed one)
 	Total     uint64
 	DefFrozen bool
-	Mgr       bool // manager role still set
-	Frz       bool // freeze role still set
-	Clw       bool // clawback role still set
+	Mgr       bool       // manager role still set
+	Frz       bool       // freeze role still set
+	Clw       bool       // clawback role still set
 	H         [3]c22hold // holdings of the current asset id (left-overs of a destroyed one if !Exists)
 	Zomb      [3]int     // left-over holdings of older, replaced asset ids (unreachable by the alphabet)
 }
